@@ -189,7 +189,7 @@ IsSessionEvent(e) == e.ev \in {"reset", "make", "unmake"}
 (***************************************************************************)
 (* Move-chain sessions (C02, C13, C14, C17; C05 on every observed board).  *)
 (***************************************************************************)
-IsChainEvent(e) == e.ev \in {"c_new", "c_push", "c_pop", "c_set_outcome", "c_clear_outcome", "c_reset_outcome",
+IsChainEvent(e) == e.ev \in {"c_new", "c_push", "c_pushlist", "c_pop", "c_set_outcome", "c_clear_outcome", "c_reset_outcome",
                               "c_calc", "c_set_auto", "c_walk", "c_text", "c_eq"}
 MoveSeqOfJson(q) == [i \in 1..Len(q) |-> MoveOfJson(q[i])]
 OutcomeOfJson(o) == o       \* JSON arrays are tuples already: <<"none">>, <<"win", 0, "checkmate">>, <<"draw", r>>
@@ -221,7 +221,7 @@ ChPushObs(c, m, o) ==
   ELSE ChPush(c, m)
 
 \* text comparisons that tolerate a different use of blanks (no listed property pins the spacing of the move lists)
-IsBlankCh(c) == c \in {32, 9, 10, 13}
+IsBlankCh(c) == c \in {32, 9, 10, 12, 13}      \* ASCII whitespace (split_ascii_whitespace)
 NoBlanks(t) == SelectSeq(t, LAMBDA c : ~IsBlankCh(c))
 RECURSIVE TokensFrom(_, _, _)
 TokensFrom(t, i, cur) ==
@@ -229,6 +229,13 @@ TokensFrom(t, i, cur) ==
   ELSE IF IsBlankCh(t[i]) THEN (IF cur = <<>> THEN <<>> ELSE <<cur>>) \o TokensFrom(t, i + 1, <<>>)
   ELSE TokensFrom(t, i + 1, Append(cur, t[i]))
 Tokens(t) == TokensFrom(t, 1, <<>>)
+
+\* the chain after push_uci_list has gone through the tokens from the i-th on
+RECURSIVE ListPushed(_, _, _)
+ListPushed(c, toks, i) ==
+  IF i > Len(toks) THEN c
+  ELSE LET d == UciDenotes(Legal(Cur(c)), toks[i]) IN
+       IF Cardinality(d) = 1 THEN ListPushed(ChPush(c, CHOOSE m \in d : TRUE), toks, i + 1) ELSE c
 
 \* the logged observation agrees with the abstract chain
 ObsChecks(c, o) ==
@@ -308,6 +315,15 @@ ChainChecks(e) ==
                   THEN ObsChecks(ChPushObs(ch, m, e.obs), e.obs)
                        \cup {<<"x_null_move_clock_as_transcribed", Cur(ChPush(ch, m)).hm = e.obs.last.pos.hm>>}
                   ELSE {})
+    [] e.ev = "c_pushlist" ->
+         \* push_uci_list: the tokens are pushed one by one; the first one that does not denote a legal move stops
+         \* the call with an error and the moves before it STAY pushed
+         LET after == ListPushed(ch, Tokens(e.text), 1) IN
+         {<<"no_panic", e.res # "panic">>,
+          <<"push_precondition", ch.outcome = NoOutcome>>,
+          <<"list_accepted_iff_every_token_is_legal", (e.res = "ok") <=> (ChLen(after) = ChLen(ch) + Len(Tokens(e.text)))>>,
+          <<"x_error_position_is_the_failing_token", e.res = "err" => e.errpos = ChLen(after) - ChLen(ch)>>}
+         \cup ObsChecks(after, e.obs)
     [] e.ev = "c_pop" ->
          {<<"pop_result", IF ChLen(ch) = 0 THEN e.res = "none"
                           ELSE e.res = "some" /\ MoveOfJson(e.m) = ch.moves[ChLen(ch)]>>}
@@ -349,6 +365,7 @@ ChainChecks(e) ==
 ChainNext(e) ==
   CASE e.ev = "c_new" -> NewChain(Normalise(PosOfJson(e.pos)))
     [] e.ev = "c_push" -> IF e.res = "ok" THEN ChPushObs(ch, MoveOfJson(e.m), e.obs) ELSE ch
+    [] e.ev = "c_pushlist" -> ListPushed(ch, Tokens(e.text), 1)
     [] e.ev = "c_pop" -> ChPop(ch)
     [] e.ev \in {"c_set_outcome", "c_reset_outcome"} -> [ch EXCEPT !.outcome = e.o]
     [] e.ev = "c_clear_outcome" -> [ch EXCEPT !.outcome = NoOutcome]
